@@ -122,6 +122,9 @@ def expand_values(seed, kind, n_spec, nf, nd, f, magnitude, nonneg=True):
         with np.errstate(all="ignore"):
             e = x ** -5 * np.exp(-1.25 * x ** -4)
         e = np.nan_to_num(e, nan=0.0, posinf=0.0)
+        # flush the far-underflowed low-frequency flank to exact zeros: subnormal densities
+        # have few significant bits and make 'equal to rounding' comparisons meaningless
+        e = np.where(e < 1e-30, 0.0, e)
         e = e * rng.uniform(0.5, 1.5, size=(n_spec, nf))
         if nd is not None:
             th0 = rng.uniform(0, 2 * np.pi, size=(n_spec, 1, 1))
@@ -136,6 +139,27 @@ def expand_values(seed, kind, n_spec, nf, nd, f, magnitude, nonneg=True):
     elif kind == "plateau":
         pal = np.array([0.0, 0.5, 1.0]) if rng.uniform() < 0.5 else np.array([0.25, 1.0, 1.0])
         e = pal[rng.integers(0, 3, size=shape)]
+    elif kind == "unidirectional":
+        # all energy of every spectrum in exactly one direction bin
+        e = np.zeros(shape)
+        if nd is None:
+            e = rng.uniform(0, 1, size=shape)
+        else:
+            j = rng.integers(0, nd, size=n_spec)
+            e[np.arange(n_spec), :, j] = rng.uniform(0.01, 1, size=(n_spec, nf))
+    elif kind == "monotone":
+        # peak at the first or the last frequency bin
+        base = np.sort(rng.uniform(0.01, 1, size=(n_spec, nf)), axis=1)
+        flip = rng.uniform(size=n_spec) < 0.5
+        base[flip] = base[flip, ::-1]
+        e = base if nd is None else base[:, :, None] * rng.uniform(0.1, 1, size=(n_spec, 1, nd))
+    elif kind == "multipeak":
+        e = rng.uniform(0, 0.2, size=(n_spec, nf))
+        for _ in range(3):
+            j = rng.integers(0, nf, size=n_spec)
+            e[np.arange(n_spec), j] += rng.choice([1.0, 1.0, 0.7])
+        if nd is not None:
+            e = e[:, :, None] * rng.uniform(0.1, 1, size=(n_spec, 1, nd))
     elif kind == "nan":
         e = rng.uniform(0, 1, size=shape)
         e[rng.uniform(0, 1, size=shape) < rng.uniform(0.02, 0.3)] = np.nan
